@@ -510,6 +510,7 @@ namespace vf {
 // handler that returns, raise(SIGABRT) does not. In 1 case of 1024 every call that may abort is first tried in a forked
 // child with SIGABRT ignored; if that child comes back although the real run below ends in SIGABRT, the library merely
 // raised the signal and would have carried on.
+static uint64_t g_case_hash = 0;     // FNV of the case bytes: per-case choices that are not part of the case language (setup habits)
 static bool g_fork_probe = false;
 static bool g_in_fibre = false;      // (set by harnesses that run library code on their own stacks: no fork there)
 template <class F> static int probe_child_survives(F &f)
@@ -646,6 +647,7 @@ static void run_case(const uint8_t *d, size_t n)
 {
     case_reset();
     arm_watchdog();
+    g_case_hash = n ? fnv64(d, n) : 0;
     {
         // allocator personality of this case (a pure function of the case bytes, so a replay sees the same one)
         arena_flush();
